@@ -12,7 +12,10 @@ Inductive scomb :=
 | KFlatMap (g : gcode)
 | KFlatten
 | KUnzip
-| KLazy (npend : nat) (ok : bool).
+| KLazy (npend : nat) (ok : bool)
+| KForEach
+| KTryForEach (q : pcode)     (* the closure fails on items satisfying q *)
+| KSendIter.
 
 (* per downstream: poll_ready, start_send, poll_flush, poll_close scripts *)
 Definition sscript := (list res * list bool * list res * list res)%type.
@@ -42,6 +45,12 @@ Definition srun_case (c : scomb) (fuel : nat) (items : list (list N)) (dn : list
   | KFlatten => srun1 (sflatten K) (None, d0) (fun s => [slg (snd s)]) (fun _ => 0) fuel items
   | KUnzip => srun1 (sunzip K K) ((false, false), (d0, d1))
                    (fun s => [slg (fst (snd s)); slg (snd (snd s))]) (fun _ => 0) fuel (map it_pair items)
+  | KForEach => srun1 (sfor_each N) [] (fun s => [s]) (fun _ => 0) fuel (map it_n items)
+  | KTryForEach q => srun1 (stry_for_each (pev q)) [] (fun s => [s]) (fun _ => 0) fuel (map it_n items)
+  | KSendIter =>
+    match si_drive K fuel (map it_n items) d0 [] with
+    | (o, tr, st) => (o, map TRdy (rev tr), [rev (slg (snd st))], 0)
+    end
   | KLazy n ok => srun1 (slazy K) (@LUninit N n ok, 0, d0) (fun s => [slg (snd s)]) (fun s => snd (fst s))
                         fuel (map it_n items)
   end.
@@ -54,7 +63,7 @@ Definition sref_items (c : scomb) (items : list (list N)) (i : nat) : list N :=
   | KFlatMap g => flat_map (gev g) (map it_n items)
   | KFlatten => concat items
   | KUnzip => if Nat.eqb i 0 then map fst (map it_pair items) else map snd (map it_pair items)
-  | KLazy _ _ => map it_n items
+  | KLazy _ _ | KForEach | KTryForEach _ | KSendIter => map it_n items
   end.
 
 Definition sn_down (c : scomb) : nat := match c with KUnzip => 2 | _ => 1 end.
@@ -120,12 +129,31 @@ Definition sholds_gen (strict : bool) (c : scomb) (items : list (list N)) (o : s
   | (SPanicked, _, _, _) => false
   | (oc, _, hs, inits) =>
     Nat.eqb (length hs) (sn_down c) &&
+    (match c with
+     | KForEach | KTryForEach _ =>
+       (* terminal sinks: the closure is called with the items in order, once; a failing call is
+          the last one *)
+       forallb (fun h => let l := rev h in
+                         prefixb (soffered l) (sref_items c items 0) &&
+                         (match l with [] => true | _ :: r => negb (sfailed r) end) &&
+                         (negb (eqb_sout oc SFinished) || eqb_list N.eqb (ssent l) (sref_items c items 0))) hs
+     | KSendIter =>
+       (* the future: items in order, once, each start_send right after a poll_ready = Ready(Ok),
+          flushed at the end, never closed *)
+       forallb (fun h => let l := rev h in
+                         swf l && negb (sclosing l) && prefixb (soffered l) (sref_items c items 0) &&
+                         (negb (eqb_sout oc SFinished) ||
+                          (eqb_list N.eqb (ssent l) (sref_items c items 0) && negb (sfailed l) &&
+                           match l with SFlush RDone :: _ => true | _ => false end))) hs
+     | _ => true
+     end) &&
     (match c, inits with
      | KLazy _ _, 0 =>
        (* never initialised: the sink does not exist, nothing can have reached it, and the
           driver can only have finished if there was nothing to deliver *)
        forallb (fun h => match h with [] => true | _ => false end) hs &&
        (negb (eqb_sout oc SFinished) || match items with [] => true | _ => false end)
+     | KForEach, _ | KTryForEach _, _ | KSendIter, _ => true
      | _, _ => sdowns_ok strict (eqb_sout oc SFinished) c items 0 hs
      end) &&
     (* errors propagate: the driver sees a failure iff a downstream (or the initializer) failed *)
